@@ -401,8 +401,8 @@ def create_mock_geff(
         include_varlength: Whether to include a variable length property. If true, will
             make a property on nodes called "var_length" that has 2d np arrays of various
             shapes
-        include_missing: If true, creades a node prop called "sparse_prop" where every other
-            node has a missing value
+        include_missing: If true, creates a node and edge prop called "sparse_prop" where every
+            other node/edge has a missing value
 
     Returns:
         Tuple of (zarr store in memory, InMemoryGeff)
@@ -420,6 +420,7 @@ def create_mock_geff(
         include_y=include_y,
         include_x=include_x,
         include_varlength=include_varlength,
+        include_missing=include_missing,
     )
 
     # Create memory store and write graph to it
